@@ -53,6 +53,8 @@ func c02Run(f []string) string {
 		return pipeRun(f)
 	case "plan":
 		return c02PlanRun(f)
+	case "named":
+		return c02NamedRun(f)
 	case "filt", "vis", "idx":
 		return c02FilterRun(f)
 	case "ctx":
@@ -248,6 +250,8 @@ func c02Gen(r *Rand, tier string) []string {
 	}
 	// default `rare filter` output through the real command, real matchers; color.StrLen
 	out = append(out, c02FilterGen(NewRand(r.U64()), tier)...)
+	// {name} through the real regex wrapper's name table
+	out = append(out, c02NamedGen(NewRand(r.U64()), tier)...)
 	// the matcher the flags select (helpers.BuildMatcherFromArguments)
 	out = append(out, c02PlanGen(NewRand(r.U64()), tier)...)
 	// the whole pipeline with late consumption (shared with C01)
@@ -298,6 +302,7 @@ func c02Stats(cases []string) map[string]int {
 		}
 	}
 	c02FilterStats(cases, st)
+	c02NamedStats(cases, st)
 	return st
 }
 
